@@ -90,7 +90,8 @@ InterpFails(c, e) ==
              \cup (IF c.fam = "airplane"
                    THEN (IF e.nopath \/ IsPathLength(e.dab, e.plen, tol) THEN {} ELSE {<<"distance-is-path-length", "">>})
                         \cup (IF AllSet(e.sameP) THEN {} ELSE {<<"point-of-computed-path", "">>})
-                        \cup (IF e.nopath \/ NoJumps(e.cks, e.chord3, e.dab3, c.lip, c.tol3) THEN {} ELSE {<<"no-jumps", "">>})
+                        \* (big: a path of more than 1000 units - the products would leave TLC's 32-bit integers)
+                        \cup (IF e.nopath \/ e.big \/ NoJumps(e.cks, e.chord3, e.dab3, c.lip, c.tol3) THEN {} ELSE {<<"no-jumps", "">>})
                         \cup (IF AllSet(e.yin) THEN {} ELSE {<<"heading-in-range", "">>})
                         \* (own tags for a pitch a hair beyond the range and one far beyond it: more than a milliradian)
                         \cup (IF PitchInRange(e.pex, c.res) THEN {}
@@ -166,7 +167,7 @@ TInterp == /\ Is("Interp") /\ ctx.name # "none"
            /\ Record(InterpFails(ctx, Ev))
            /\ cnt' = [cnt EXCEPT !.interps = @ + 1, !.reparam = @ + B(~ctx.exempt /\ ctx.geo),
                                  !.proportional = @ + B(~ctx.exempt /\ ctx.geo),
-                                 !.noJumps = @ + B(ctx.fam = "airplane" /\ ~Ev.nopath),
+                                 !.noJumps = @ + B(ctx.fam = "airplane" /\ ~Ev.nopath /\ ~Ev.big),
                                  !.noPath = @ + B(ctx.fam = "airplane" /\ Ev.nopath)]
            /\ UNCHANGED ctx
 
